@@ -600,6 +600,74 @@ fn parent_case(case: u64, rng: &mut Rng, rep: &mut Report, per_history: usize, q
     }
 }
 
+
+/// Forced schedule + fault (in-process): the merge thread is parked near the end of a merge, a
+/// delete is committed meanwhile, and the reconciliation of the merged segment with that delete
+/// (end_merge -> advance_deletes) hits an I/O error. The merge has to be discarded without
+/// effect: the index must still show exactly the committed state.
+fn forced_merge_fault_case(case: u64, rng: &mut Rng, rep: &mut Report) {
+    let cfg = ExecCfg { threads: 1, merge_policy: false, sort: None, budget_per_thread: 15_000_000 };
+    let mon = MonDir::new(MonCfg { monitors: true, ..Default::default() });
+    let mut ex = match Exec::create(Box::new(mon.clone()), cfg, Some(mon.clone())) {
+        Ok(e) => e,
+        Err(e) => {
+            rep.violation("api-error:create", json!(e));
+            return;
+        }
+    };
+    rep.eval();
+    let mut g = HistGen::new();
+    for _ in 0..rng.urange(2, 3) {
+        for _ in 0..rng.urange(3, 12) {
+            ex.step(&Op::Add(g.doc(rng, 3)));
+        }
+        ex.step(&Op::Commit);
+    }
+    let ids = ex.index.searchable_segment_ids().unwrap_or_default();
+    if ids.len() < 2 {
+        return;
+    }
+    let gate_kind = *rng.pick(&[OpKind::Terminate, OpKind::Terminate, OpKind::OpenWrite, OpKind::Write]);
+    let nth = rng.below(6);
+    let gate = mon.add_gate(OpPred::kind(gate_kind).role("merge"), nth);
+    let fut = ex.writer.as_mut().unwrap().merge(&ids);
+    let parked = mon.wait_parked(gate, Duration::from_secs(5));
+    let fault_kind = *rng.pick(&[OpKind::OpenWrite, OpKind::Write, OpKind::Terminate]);
+    if parked {
+        // a delete that hits documents of the segments being merged, committed while it runs
+        ex.step(&Op::DeleteTerm(Pred::Grp(rng.below(3))));
+        ex.step(&Op::Commit);
+        mon.add_fault(OpPred::kind(fault_kind).role("updater").fkind("del"), 0, FaultMode::Once, std::io::ErrorKind::Other);
+    }
+    mon.release_gate(gate);
+    let merge_res = fut.wait();
+    let fired = mon.faults_fired();
+    mon.clear_faults();
+    mon.release_all_gates();
+    rep.count(if parked { "forced_merge_fault:parked" } else { "forced_merge_fault:gate_not_reached" }, 1);
+    rep.count(if fired > 0 { "forced_merge_fault:fault_fired_in_end_merge" } else { "forced_merge_fault:fault_not_reached" }, 1);
+    rep.count(if merge_res.is_ok() { "forced_merge_fault:merge_ok" } else { "forced_merge_fault:merge_err" }, 1);
+    let mut errs = ex.check_committed(true);
+    ex.step(&Op::Add(g.doc(rng, 3)));
+    ex.step(&Op::Commit);
+    errs.extend(ex.check_committed(true));
+    for (sig, d) in ex.problems.drain(..) {
+        if !is_known("C02", &sig) {
+            errs.push((format!("live:{sig}"), d));
+        }
+    }
+    for (sig, d) in errs {
+        rep.violation(
+            format!("forced-merge-fault:{sig}"),
+            json!({"case": case, "gate": format!("{}#{}", gate_kind.name(), nth), "fault": fault_kind.name(),
+                   "fault_fired": fired, "merge_returned_ok": merge_res.is_ok(), "detail": d}),
+        );
+    }
+    if parked && fired > 0 {
+        rep.nontrivial(format!("forced-merge-fault:{}#{}:{}", gate_kind.name(), nth, fault_kind.name()));
+    }
+}
+
 fn main() {
     // child mode first
     let argv: Vec<String> = std::env::args().collect();
@@ -625,6 +693,7 @@ fn main() {
     rep.merge(run_cases(&ctx, "commit-point", ctx.scale(24, 300) as u64, |c, rng, rep| {
         parent_case(c, rng, rep, 6, true)
     }));
+    rep.merge(run_cases(&ctx, "forced-merge-fault", ctx.scale(60, 3000) as u64, forced_merge_fault_case));
     simple_finish(
         &ctx,
         rep,
